@@ -65,7 +65,33 @@ def replay_sttv(spec):
             "expected": "growth by exp(g*dt) per step, division time = time + Normal(1, noise)*ln(Vdiv/V)/g, reported once in the step containing it"}
 
 
+def replay_general_volume(spec):
+    import numpy as np
+    from bioscrape.types import Model
+    text = spec["text"]
+    bad = []
+    for (k, K, A, B, V, t) in ((0.8, 1.5, 6.0, 5.0, 0.25, 0.0), (0.8, 1.5, 6.0, 5.0, 2.5, 1.0), (2.0, 0.5, 1.0, 3.0, 4.0, 0.5)):
+        M = Model(species=["A", "B"], parameters=[("k", k), ("K", K)], reactions=[(["A", "B"], [], "general", {"rate": text})])
+        p = M.get_propensities()[0]
+        idx = M.get_species2index()
+        st = np.zeros(2)
+        st[idx["A"]], st[idx["B"]] = A, B
+        pv = np.array(M.get_parameter_values(), dtype=float)
+        got = dict(deterministic=p.py_get_propensity(st.copy(), pv, t), stochastic=p.py_get_stochastic_propensity(st.copy(), pv, t),
+                   volume=p.py_get_volume_propensity(st.copy(), pv, V, t), stochastic_volume=p.py_get_stochastic_volume_propensity(st.copy(), pv, V, t))
+        for mode, val in got.items():
+            want = eval(text.replace("^", "**"), {"__builtins__": {}}, dict(k=k, K=K, A=A, B=B, t=t, volume=V if mode.endswith("volume") else 1.0))
+            if not abs(val - want) <= 1e-9 * max(1.0, abs(want)):
+                bad.append("rate '%s' at A=%s B=%s V=%s in %s mode: %r, the written formula gives %r" % (text, A, B, V, mode, val, want))
+    return {"reproduced": bool(bad), "observed": bad[:3], "expected": "'volume' reads the current volume in the volume-aware modes and 1 otherwise"}
+
+
 def replay(spec):
+    if spec.get("kind") == "general_volume":
+        return replay_general_volume(spec)
+    if "text" in spec:
+        from . import C02
+        return C02.replay(spec)
     if spec.get("kind") in ("massaction", "hill"):
         return C01.replay(spec)
     if spec.get("kind") == "sttv":
